@@ -91,8 +91,9 @@ def run(rep, tier, seed):
     pairs = collide_pairs() + prio_empty_pairs() + gen(rng, tier)
     lf.add_histories(rng, [p.lr for p in pairs])
     lf.add_histories(rng, [p.glr for p in pairs])
-    lf.run_cases([p.lr for p in pairs], extra_requests=lambda c: ["rawdet"])
-    lf.run_cases([p.glr for p in pairs], model=False)
+    lf.run_cases([p.lr for p in pairs], extra_requests=lambda c: ["rawdet", "cert c01"])
+    # the GLR side: the model is not asked to parse here (C03 compares the engine); only the certificates of the RN table
+    lf.run_cases([p.glr for p in pairs], parse_model=False, extra_requests=lambda c: ["glr cert"])
     check(rep, pairs, proofs_ok)
 
 
@@ -179,8 +180,10 @@ def check(rep, pairs, proofs_ok):
                        "all strings up to length 3, sentences, mutations, without and with whitespace; compared: Ok/Err, solutions() = 1, "
                        "tree equal node by node (production, token kind/span/value, nonterminal span) up to elided trailing empty "
                        "children; distinct = (grammar, input)")
+    import re
     failures = []
     corr_breaks = []
+    cert_failures = []
     distinct = set()
     from common import load_findings
     known = {f["key"]: f for f in load_findings() if f["property"] == "C07" and f["status"] == "known"}
@@ -194,6 +197,22 @@ def check(rep, pairs, proofs_ok):
             rep.count("out_of_scope(needs disambiguation)")
             continue
         rep.count("grammars_in_scope")
+        # Tie B for C07_glr_accepts_iff_lr_accepts / C07_glr_trees_are_elisions_of_the_lr_tree: the two-table hypothesis
+        # (certC01 of the LR table, Cert.glr and Cert.completeRN of the RN table of the same grammar)
+        c01 = lr.extra[1] if len(lr.extra) > 1 else "?"
+        gc = (getattr(glr, "extra", None) or ["?"])[0]
+        if c01 == "1" and " glr=1 " in gc + " " and gc.endswith("completeRN=1"):
+            rep.count("two_table_certificates_pass")
+        elif re.search(r"EMPTY\s*\{\s*\d+", glr.text) and "completeRN=0" in gc and "C07-N2-priority-evicts-right-nulled-reduction" in known:
+            # the right-nulled entry evicted by a priority: the completeness certificate fails, as it must (known finding)
+            rep.count("known:C07-N2(certificate completeRN fails)")
+        elif re.search(r"(?im)^\s*layout\s*:", glr.text) and c01 == "0" and " glr=1 " in gc + " " and gc.endswith("completeRN=1"):
+            # certC01 (the C01 certificate) does not cover the nested layout automaton: pairs with a Layout rule are outside
+            # the scope of the two theorems (they stay inside the differential comparison); the RN side still passes
+            rep.count("layout_pair_rn_certificates_pass(certC01 not applicable)")
+        else:
+            rep.count("two_table_certificate_failures")
+            cert_failures.append((glr, f"cert c01 (LR table) = {c01}; {gc}"))
         for k, (a, b) in enumerate(zip(lr.results, glr.results)):
             distinct.add((lr.text, lr.inputs[k][2]))
             rep.count("evaluations")
@@ -244,6 +263,12 @@ def check(rep, pairs, proofs_ok):
             c, k = corr_breaks[0]
             rep.violation(dict(c.describe(k), why="correspondence corr:lr broken; LR and GLR still agree on every input",
                                kind="impl!=model", n_breaks=len(corr_breaks)), no_input=True)
+        elif cert_failures:
+            c, why = cert_failures[0]
+            rep.violation({"grammar": c.text, "settings": " ".join(c.settings), "kind": "certificate",
+                           "why": "two-table hypothesis of the C07 engine theorems fails on an in-scope pair: " + why
+                                  + " -- LR and GLR still agree on every input tried", "n_tables": len(cert_failures)},
+                          no_input=True)
         elif not proofs_ok:
             rep.violation({"why": f"Lean obligations of {PROP_MODULE} no longer check",
                            "obligations": [o for o in rep.obligations if not o[1]]}, no_input=True)
@@ -266,6 +291,6 @@ def replay(rep, path):
     glr.max_trees = 2
     lf.apply_replay_history(lr, p)
     lf.apply_replay_history(glr, p)
-    lf.run_cases([lr], extra_requests=lambda c: ["rawdet"])
-    lf.run_cases([glr], model=False)
+    lf.run_cases([lr], extra_requests=lambda c: ["rawdet", "cert c01"])
+    lf.run_cases([glr], parse_model=False, extra_requests=lambda c: ["glr cert"])
     check(rep, [Pair(lr, glr)], True)
